@@ -27,11 +27,24 @@ def local_aliases(fi):
     return out
 
 
+def expand_alias(text, aliases, depth=4):
+    """'graph' -> 'cells.model.tracegraph' through chains of single-assignment locals."""
+    if text is None:
+        return None
+    for _ in range(depth):
+        head, _, rest = text.partition(".")
+        if head in aliases and aliases[head] != head:
+            text = aliases[head] + ("." + rest if rest else "")
+        else:
+            break
+    return text
+
+
 def graph_kind_of(recv_text, aliases):
     """'trace' | 'ref' | None for a receiver text like 'cells.model.tracegraph' or a local."""
     if recv_text is None:
         return None
-    t = aliases.get(recv_text, recv_text)
+    t = expand_alias(recv_text, aliases)
     last = t.split(".")[-1]
     if last == "tracegraph":
         return "trace"
